@@ -2,6 +2,8 @@ import SeqVerif.Model.BulkProc
 import SeqVerif.Model.BulkTime
 import SeqVerif.Model.BulkMeta
 import SeqVerif.Model.BulkMetaCodec
+import SeqVerif.Model.BulkCompose
+import SeqVerif.Model.CollectorLemmas
 import SeqVerif.Extracted.C10
 /-!
 # C10 - bulk ingestion stores valid documents verbatim, timed by rule, or stores nothing
@@ -50,7 +52,7 @@ stream, store succeeds): the single `StoreDocuments` call carries exactly the in
 byte for byte (the payload decodes to them) with one meta per document in the same order, the response lists
 exactly that many created items, and when there is nothing to store no call is made. -/
 theorem c10_stored_exactly (E : Env) (hB : 2 ≤ E.B) (hB' : E.B ≤ 4294967296) (hclean : E.clean = true)
-    (checkN : Nat) (kind : Bytes → Kind) (mk : Bytes → Meta) (es : List Entry) (trail : List Bytes)
+    (checkN : Nat) (kind : Bytes → Kind) (mk : Bytes → List Meta) (es : List Entry) (trail : List Bytes)
     (hnl : NoNL (es.flatMap Entry.lines ++ trail)) (hwf : WFFrom E checkN 0 es)
     (ht : ∀ b, b ∈ trail → Blank E.B b) (hvalid : ∀ d, d ∈ docsOf E.B es → kind d ≠ .invalid) :
     processDocuments E checkN kind mk true (bodyOf es trail) = acceptedWith mk (storedOf E.B kind es) ∧
@@ -79,7 +81,7 @@ assumption on their content): if the request is answered with success, then the 
 well-formed entries followed by blank lines, none of its in-limit document lines is invalid JSON, and the answer
 and the store call are exactly those of `c10_stored_exactly`. -/
 theorem c10_accepted_characterised (E : Env) (hB : 2 ≤ E.B) (hclean : E.clean = true) (checkN : Nat)
-    (kind : Bytes → Kind) (mk : Bytes → Meta) (ls : List Bytes) (hnl : NoNL ls) (items : Nat)
+    (kind : Bytes → Kind) (mk : Bytes → List Meta) (ls : List Bytes) (hnl : NoNL ls) (items : Nat)
     (h : (processDocuments E checkN kind mk true (render ls)).resp = .ok items) :
     ∃ es trail, ls = es.flatMap Entry.lines ++ trail ∧ WFFrom E checkN 0 es ∧ (∀ b, b ∈ trail → Blank E.B b) ∧
       (∀ d, d ∈ docsOf E.B es → kind d ≠ .invalid) ∧
@@ -103,7 +105,7 @@ theorem c10_accepted_characterised (E : Env) (hB : 2 ≤ E.B) (hclean : E.clean 
 object is skipped: what is stored for `es1 ++ e :: es2` is what is stored for `es1` followed by what is stored
 for `es2` - the neighbours' bytes and order are untouched. -/
 theorem c10_skips_local (E : Env) (hB : 2 ≤ E.B) (hclean : E.clean = true)
-    (checkN : Nat) (kind : Bytes → Kind) (mk : Bytes → Meta) (es1 es2 : List Entry) (e : Entry) (trail : List Bytes)
+    (checkN : Nat) (kind : Bytes → Kind) (mk : Bytes → List Meta) (es1 es2 : List Entry) (e : Entry) (trail : List Bytes)
     (hnl : NoNL ((es1 ++ e :: es2).flatMap Entry.lines ++ trail)) (hwf : WFFrom E checkN 0 (es1 ++ e :: es2))
     (ht : ∀ b, b ∈ trail → Blank E.B b) (hvalid : ∀ d, d ∈ docsOf E.B (es1 ++ e :: es2) → kind d ≠ .invalid)
     (hskip : fits E.B e.doc = false ∨ kind (dropCR e.doc) = .nonObject) :
@@ -123,7 +125,7 @@ theorem c10_skips_local (E : Env) (hB : 2 ≤ E.B) (hclean : E.clean = true)
 /-- **C10 (a rejected request stores nothing), for every body whatsoever** (any bytes, terminated or not):
 if the reader ends with an error (protocol error, stream error) or any line it yields is invalid JSON, the
 answer is an error and `StoreDocuments` is never called. -/
-theorem c10_invalid_stores_nothing (E : Env) (checkN : Nat) (kind : Bytes → Kind) (mk : Bytes → Meta)
+theorem c10_invalid_stores_nothing (E : Env) (checkN : Nat) (kind : Bytes → Kind) (mk : Bytes → List Meta)
     (storeOk : Bool) (body : Bytes)
     (h : (∃ e, (readAll E checkN body).2 = .err e) ∨ ∃ d, d ∈ (readAll E checkN body).1 ∧ kind d = .invalid) :
     (∃ e, (processDocuments E checkN kind mk storeOk body).resp = .error e) ∧
@@ -140,7 +142,7 @@ theorem c10_invalid_stores_nothing (E : Env) (checkN : Nat) (kind : Bytes → Ki
 /-- the same on bodies built from entries: one in-limit document line that is invalid JSON rejects the whole
 request, whatever the other lines are -/
 theorem c10_invalid_entry_stores_nothing (E : Env) (hB : 2 ≤ E.B) (checkN : Nat) (kind : Bytes → Kind)
-    (mk : Bytes → Meta) (storeOk : Bool) (es : List Entry) (trail : List Bytes)
+    (mk : Bytes → List Meta) (storeOk : Bool) (es : List Entry) (trail : List Bytes)
     (hnl : NoNL (es.flatMap Entry.lines ++ trail)) (hwf : WFFrom E checkN 0 es)
     (ht : ∀ b, b ∈ trail → Blank E.B b) (e : Entry) (he : e ∈ es) (hf : fits E.B e.doc = true)
     (hk : kind (dropCR e.doc) = .invalid) :
@@ -156,7 +158,7 @@ theorem c10_invalid_entry_stores_nothing (E : Env) (hB : 2 ≤ E.B) (checkN : Na
 /-- no `StoreDocuments` call without a success answer or a store error: for every body, an error answer other
 than the store's own error means the storage client was not called; an empty bulk is answered with 0 items and
 no call; there is never more than the one call the `Result` can hold -/
-theorem c10_error_means_no_call (E : Env) (checkN : Nat) (kind : Bytes → Kind) (mk : Bytes → Meta) (storeOk : Bool)
+theorem c10_error_means_no_call (E : Env) (checkN : Nat) (kind : Bytes → Kind) (mk : Bytes → List Meta) (storeOk : Bool)
     (body : Bytes)
     (e : Err) (h : (processDocuments E checkN kind mk storeOk body).resp = .error e) (hs : e ≠ .store) :
     (processDocuments E checkN kind mk storeOk body).stored = none := by
@@ -179,7 +181,7 @@ already known: `fitsTail`), it is stored as it is (no `'\r'` stripping without a
 skipped provided the skipping does not run into the end of the stream (`tailSkipOk`; otherwise see
 `c10_unterminated_oversize_rejected`). -/
 theorem c10_stored_exactly_unterminated (E : Env) (hB : 2 ≤ E.B) (hclean : E.clean = true)
-    (checkN : Nat) (kind : Bytes → Kind) (mk : Bytes → Meta) (es : List Entry) (blanks : List Bytes)
+    (checkN : Nat) (kind : Bytes → Kind) (mk : Bytes → List Meta) (es : List Entry) (blanks : List Bytes)
     (action tail : Bytes)
     (hnl : NoNL (es.flatMap Entry.lines ++ (blanks ++ [action]))) (htail : 10 ∉ tail) (hne : tail ≠ [])
     (hwf : WFFrom E checkN 0 es) (hbl : ∀ b, b ∈ blanks → Blank E.B b)
@@ -214,7 +216,7 @@ multiple of the buffer, up to the `'\r'` put-backs) makes `ReadDoc` fail with "r
 request is rejected and nothing is stored - the code as it is; the property's "skipped without disturbing the
 neighbours" holds for terminated over-size lines (`c10_skips_local`) and for the other unterminated ones -/
 theorem c10_unterminated_oversize_rejected (E : Env) (hB : 2 ≤ E.B)
-    (checkN : Nat) (kind : Bytes → Kind) (mk : Bytes → Meta) (storeOk : Bool) (es : List Entry) (blanks : List Bytes)
+    (checkN : Nat) (kind : Bytes → Kind) (mk : Bytes → List Meta) (storeOk : Bool) (es : List Entry) (blanks : List Bytes)
     (action tail : Bytes)
     (hnl : NoNL (es.flatMap Entry.lines ++ (blanks ++ [action]))) (htail : 10 ∉ tail)
     (hwf : WFFrom E checkN 0 es) (hbl : ∀ b, b ∈ blanks → Blank E.B b)
@@ -236,7 +238,7 @@ theorem c10_unterminated_oversize_rejected (E : Env) (hB : 2 ≤ E.B)
 
 /-- the fuel of the model's loops never runs out: for every body, every buffer of at least 2 bytes (bufio's
 minimum is 16) and every oracle the answer is not the model artefact `Err.fuel` -/
-theorem c10_model_total (E : Env) (hB : 2 ≤ E.B) (checkN : Nat) (kind : Bytes → Kind) (mk : Bytes → Meta)
+theorem c10_model_total (E : Env) (hB : 2 ≤ E.B) (checkN : Nat) (kind : Bytes → Kind) (mk : Bytes → List Meta)
     (storeOk : Bool) (body : Bytes) :
     (processDocuments E checkN kind mk storeOk body).resp ≠ .error .fuel := by
   obtain ⟨ls, tail, rfl, hnl, htail⟩ := exists_lines body
@@ -281,15 +283,64 @@ theorem c10_time_rule (doc : Option Int) (req drift fut : Int)
     funext d p f; exact c10_x_delayed_model d p f
   rw [this]; exact idTime_repaired doc req drift fut hd hf
 
-/-- **C10 (stored documents are timed by the rule and sized exactly).**  In an accepted request the `i`-th meta
-of the `StoreDocuments` call belongs to the `i`-th stored document `d` (`c10_stored_exactly` gives
-`metas = stored.map (metaFor T)`); this is its value: `Size = len(d)` and the MID of its ID is `TimeToMID` of the
-document's own time when that parses and lies within the drifts, of the receive time otherwise. -/
-theorem c10_stored_meta (timeOf : Bytes → Option Int) (req drift fut : Int) (d : Bytes)
+/-- **C10 (the metas of a stored document).**  `c10_stored_exactly` gives `metas = stored.flatMap (metasFor T I)`;
+this is the value of `metasFor T I d` for a stored document `d`: first the parent meta - `Size = len(d)`, the MID of
+its ID is `TimeToMID` of the document's own time when that parses and lies within the drifts and of the receive
+time otherwise, and its tokens are `_all_` followed by what `indexer.Index` collects, every field through C11's
+`SV.Tok.indexField` (the same definition C11's findability theorems are about) - then one meta per element of a
+nested field: `Size = 0`, the same ID, `_all_`, the element's own tokens, then the parent's tokens. -/
+theorem c10_stored_metas (timeOf : Bytes → Option Int) (req drift fut : Int) (I : IndexCfg) (d : Bytes)
     (hd : 0 ≤ drift ∧ drift < maxI) (hf : 0 ≤ fut ∧ fut < maxI) (hlen : d.length < 4294967296) :
-    metaFor ⟨SV.Extracted.C10.documentDelayedX, timeOf, req, drift, fut⟩ d =
-      ⟨timeToMID (ruleTime (timeOf d) req drift fut), d.length⟩ := by
-  simp only [metaFor, docMID, c10_time_rule (timeOf d) req drift fut hd hf, Nat.mod_eq_of_lt hlen]
+    metasFor ⟨SV.Extracted.C10.documentDelayedX, timeOf, req, drift, fut⟩ I d =
+      (match SV.BulkIndex.indexDoc I.c I.mp (I.tree d) with
+       | [] => []
+       | parent :: nested =>
+         ⟨timeToMID (ruleTime (timeOf d) req drift fut), I.ridOf d, d.length, parent⟩ ::
+           nested.map fun t => ⟨timeToMID (ruleTime (timeOf d) req drift fut), I.ridOf d, 0, t⟩) ∧
+    SV.BulkIndex.Headed (SV.BulkIndex.indexDoc I.c I.mp (I.tree d)) := by
+  refine ⟨?_, SV.BulkIndex.indexDoc_headed I.c I.mp (I.tree d)⟩
+  simp only [metasFor, docMID, c10_time_rule (timeOf d) req drift fut hd hf]
+  cases SV.BulkIndex.indexDoc I.c I.mp (I.tree d) with
+  | nil => rfl
+  | cons p ns => simp [SV.BulkIndex.docMetas, Nat.mod_eq_of_lt hlen]
+
+/-- **C10 (created items count documents, not metas).**  The metas of one stored document are exactly one meta of
+non-zero size (the parent, first) followed by size-0 metas with the same ID (one per nested element); hence in an
+accepted request the number of created items (= `count` of the store call = number of stored documents,
+`c10_stored_exactly`) is the number of metas with `Size ≠ 0`, whatever the number of nested metas. -/
+theorem c10_items_count_documents (T : TimeCfg) (I : IndexCfg) (S : List Bytes)
+    (hS : ∀ d, d ∈ S → d.length ≠ 0 ∧ d.length < 4294967296) :
+    ((S.flatMap (metasFor T I)).filter fun m => m.size ≠ 0).length = S.length ∧
+    ∀ d, d ∈ S → DocShaped (metasFor T I d) d := by
+  have shaped : ∀ d, d ∈ S → DocShaped (metasFor T I d) d := by
+    intro d hd
+    obtain ⟨p, ns, h1, _, h3⟩ := SV.BulkIndex.docMetas_shape
+      (docMID T.delayed (T.timeOf d) T.req T.drift T.fut) (I.ridOf d) I.c I.mp (I.tree d) d
+    exact ⟨_, ns, h1, by simp [Nat.mod_eq_of_lt (hS d hd).2], (hS d hd).1, fun m hm => (h3 m hm).2.2.1⟩
+  refine ⟨?_, shaped⟩
+  induction S with
+  | nil => rfl
+  | cons d S ih =>
+    obtain ⟨p, ns, hmk, hp, hd0, hns⟩ := shaped d (by simp)
+    have hn : (ns.filter fun m => m.size ≠ 0) = [] := by
+      apply List.filter_eq_nil_iff.mpr
+      intro m hm; simp [hns m hm]
+    have ih := ih (fun x hx => hS x (by simp [hx])) (fun x hx => shaped x (by simp [hx]))
+    simp only [List.flatMap_cons, List.filter_append, List.length_append, hmk, List.filter_cons, hp, hd0, hn,
+      ne_eq, not_false_eq_true, decide_true, if_true, List.length_cons, List.length_nil, ih]
+    omega
+
+/-- **C10 ∘ C17 (the store sees every meta at its document).**  Feed the metas of an accepted request to C17's
+collector model (`SV.Collector.collect`, block `b`): its per-meta view is `layout` - the `i`-th stored document's
+parent meta and all its nested metas carry the position `(b, offset of the i-th length prefix in the docs
+payload)` and the token bytes `key:value` of `c10_stored_metas`.  Together with `c10_payload_roundtrip` the
+position is where the document's own bytes lie. -/
+theorem c10_c17_collector_view (T : TimeCfg) (I : IndexCfg) (S : List Bytes) (b : Nat)
+    (hS : ∀ d, d ∈ S → d.length ≠ 0 ∧ d.length < 4294967296) :
+    SV.Collector.rview (SV.Collector.collect b ((S.flatMap (metasFor T I)).map toCollector)) =
+      layout b (metasFor T I) S 0 := by
+  rw [(SV.Collector.collect_spec b _).2.1]
+  exact docsFrom_layout b _ S 0 (0, 0) (c10_items_count_documents T I S hS).2
 
 /-- historical, about the definition before the repair: under the extra hypothesis that the document is less
 than 2^63 ns ahead of the request the old comparison obeyed the rule -/
@@ -371,6 +422,22 @@ modelled failure is a 500 (`SV.Bulk.httpStatus`) -/
 theorem c10_x_error_wrapping :
     loopErrorFormats = ["reading next document: %s", "processing doc: %s"] := by decide
 
+/-- `indexer.Index`: `_all_` meta first, `decodeInternal` from the root into meta 0, then every nested meta gets
+the parent's tokens except the first; `appendNestedMeta`: size 0, the parent's ID; the five tests of
+`decodeInternal` in the order the model makes them; `decodeTags`: `<name>.<key>`, value of `value` -/
+theorem c10_x_indexer :
+    indexSteps = ["i.appendMeta(id, size)", "i.decodeInternal(node, id, nil, 0)", "for j := 1; j < len(m)",
+      "m[j].Tokens = append(m[j].Tokens, parent.Tokens[1:]...)"] ∧
+    nestedMeta = ["nestedMetadataSize = 0", "i.appendMeta(parent.ID, nestedMetadataSize)"] ∧
+    decodeConds = ["len(name) != 0", "mainType == seq.TokenizerTypeNoop",
+      "mainType == seq.TokenizerTypeObject && field.AsFieldValue().IsObject()",
+      "mainType == seq.TokenizerTypeTags && field.AsFieldValue().IsArray()",
+      "mainType == seq.TokenizerTypeNested && field.AsFieldValue().IsArray()"] ∧
+    tagsSteps = ["fieldName := tag.Dig(\"key\").AsBytes()", "fieldName = bytes.Join([][]byte{name, fieldName}, fieldSeparator)",
+      "nodeValue := encodeInsaneNode(tag.Dig(\"value\"))",
+      "i.metas[tokensIndex].Tokens = i.index(i.mapping[string(fieldName)], i.metas[tokensIndex].Tokens, fieldName, nodeValue)"] := by
+  decide
+
 /-! ## Non-vacuity -/
 
 section examples
@@ -390,10 +457,11 @@ private theorem wfEx : WFFrom E16 5 0 esEx := by
 
 /-- the hypotheses of `c10_stored_exactly` / `c10_skips_local` hold for a body with `\r\n` terminators, blank
 lines, a non-object and an over-size line; two documents are stored -/
-private def mkEx (d : Bytes) : Meta := ⟨7, d.length⟩
+private def mkEx (d : Bytes) : List Meta := [⟨7, 9, d.length, [(tokenAllEx, [])]⟩]
+  where tokenAllEx : Bytes := [95, 97, 108, 108, 95]
 
 example : processDocuments E16 5 kindEx mkEx true (bodyOf esEx [[], [13]]) =
-    ⟨.ok 2, some (2, [2, 0, 0, 0, 123, 125, 2, 0, 0, 0, 123, 125], [⟨7, 2⟩, ⟨7, 2⟩])⟩ := by decide
+    ⟨.ok 2, some (2, [2, 0, 0, 0, 123, 125, 2, 0, 0, 0, 123, 125], [⟨7, 9, 2, [([95, 97, 108, 108, 95], [])]⟩, ⟨7, 9, 2, [([95, 97, 108, 108, 95], [])]⟩])⟩ := by decide
 
 example : storedOf 16 kindEx esEx = [[123, 125], [123, 125]] := by decide
 
@@ -411,6 +479,37 @@ example : processDocuments E16 5 kindEx mkEx true (bodyOf ([esEx[0]] ++ esEx[1] 
 example : (decodeDocs (encodeMetas [⟨1790000000000, 77, 2, [⟨[95, 97, 108, 108, 95], []⟩, ⟨[107], [118]⟩]⟩]).length
     (encodeMetas [⟨1790000000000, 77, 2, [⟨[95, 97, 108, 108, 95], []⟩, ⟨[107], [118]⟩]⟩])).bind (fun rs => rs.mapM decMeta) =
     some [⟨1790000000000, 77, 2, [⟨[95, 97, 108, 108, 95], []⟩, ⟨[107], [118]⟩]⟩] := by decide
+
+section index
+open SV.BulkIndex SV.Tok SV.Parser
+
+private def rn (b : Nat) : TRn := ⟨⟨[b], b, true, false, false, b, false⟩, [b], [b]⟩
+private def cfgEx : TokCfg := ⟨16, false, false, 100, true⟩
+private def mpEx (k : Bytes) : MTypes :=
+  if k = [107] then ⟨.leaf, [⟨[], .keyword, 0⟩]⟩                      -- k: keyword
+  else if k = [115] then ⟨.nested, [⟨[], .other, 0⟩]⟩                  -- s: nested
+  else if k = [115, 46, 105] then ⟨.leaf, [⟨[], .keyword, 0⟩]⟩         -- s.i: keyword
+  else ⟨.noop, []⟩
+/-- `{"k":"v","s":[{"i":"a"},{"i":"b"}]}` as the indexer sees it -/
+private def treeEx : JV :=
+  .mk [] [] .obj [([107], .mk [118] [rn 118] .other [] []),
+    ([115], .mk [] [] .arr [] [.mk [] [] .obj [([105], .mk [97] [rn 97] .other [] [])] [],
+                               .mk [] [] .obj [([105], .mk [98] [rn 98] .other [] [])] []])] []
+
+/-- parent: `_all_`, `k:v`, `_exists_:k`; two nested metas: `_all_`, `s.i:a|b`, `_exists_:s.i`, then the parent's -/
+example : indexDoc cfgEx mpEx treeEx =
+    [[(tokenAll, []), ([107], [118]), (tokenExists, [107])],
+     [(tokenAll, []), ([115, 46, 105], [97]), (tokenExists, [115, 46, 105]), ([107], [118]), (tokenExists, [107])],
+     [(tokenAll, []), ([115, 46, 105], [98]), (tokenExists, [115, 46, 105]), ([107], [118]), (tokenExists, [107])]] := by
+  decide +kernel
+
+/-- hypotheses of `c10_items_count_documents` / `c10_c17_collector_view`: two stored documents of 36 bytes with
+two nested metas each: 6 metas, 2 of non-zero size -/
+example : ((List.replicate 2 (List.replicate 36 120)).flatMap
+    (metasFor ⟨documentDelayedRepaired, fun _ => none, 5000000, 10, 10⟩ ⟨cfgEx, mpEx, fun _ => treeEx, fun _ => 3⟩)).map
+      (fun m => (m.mid, m.size)) = [(5, 36), (5, 0), (5, 0), (5, 36), (5, 0), (5, 0)] := by decide +kernel
+
+end index
 
 /-- an invalid line after a stored one: nothing is stored -/
 example : processDocuments E16 5 kindEx mkEx true (render [qIndex, [123, 125], qIndex, [120]]) = ⟨.error .badJSON, none⟩ := by
